@@ -45,21 +45,24 @@ Definition Embeds (root : node) (pats : list str) (path d : str) : Prop :=
     Selects root (split_slash (snd (cut_all pat))) chain /\
     Gives (fst (cut_all pat)) chain path d.
 
-(* reasons for which the go tool refuses a selected entry *)
-Inductive BadEntry (all : bool) (chain : list (str * node)) : Prop :=
-| Bad_module : forall e, In e chain -> has_gomod (snd e) = true -> BadEntry all chain
-| Bad_name : forall e, In e chain -> bad_name (fst e) = true -> BadEntry all chain
-| Bad_irregular : forall name, last chain ([], Irreg) = (name, Irreg) -> BadEntry all chain
-| Bad_symlink : forall name t, last chain ([], Irreg) = (name, Link t) -> BadEntry all chain
-| Bad_empty : forall name es, last chain ([], Irreg) = (name, Dir es) ->
-    (forall names d, ~ Below all es names d) -> BadEntry all chain.
-
-(* the additional cmd/go rule that goembed.go does not implement: a proper
-   prefix of the selected path is not a directory itself (a symbolic link) *)
+(* cmd/go: every proper prefix of the selected path must be a directory itself
+   (not, for instance, a symbolic link to one) *)
 Definition ThroughLink (chain : list (str * node)) : Prop :=
-  exists e t, In e (removelast chain) /\ snd e = Link t.
+  exists e, In e (removelast chain) /\ is_dir (snd e) = false.
 
-Definition PatternRejected (root : node) (pat : str) : Prop :=
+(* reasons for which the go tool refuses a selected entry.  [nd] = true is the
+   rule set of the go tool; nd = false leaves out the non-directory rule (what
+   goembed.go implemented before the fix). *)
+Inductive BadEntry (nd all : bool) (chain : list (str * node)) : Prop :=
+| Bad_module : forall e, In e chain -> has_gomod (snd e) = true -> BadEntry nd all chain
+| Bad_nondir : nd = true -> ThroughLink chain -> BadEntry nd all chain
+| Bad_name : forall e, In e chain -> bad_name (fst e) = true -> BadEntry nd all chain
+| Bad_irregular : forall name, last chain ([], Irreg) = (name, Irreg) -> BadEntry nd all chain
+| Bad_symlink : forall name t, last chain ([], Irreg) = (name, Link t) -> BadEntry nd all chain
+| Bad_empty : forall name es, last chain ([], Irreg) = (name, Dir es) ->
+    (forall names d, ~ Below all es names d) -> BadEntry nd all chain.
+
+Definition PatternRejected (nd : bool) (root : node) (pat : str) : Prop :=
   pattern_ok (snd (cut_all pat)) = false
   \/ (forall chain, ~ Selects root (split_slash (snd (cut_all pat))) chain)
-  \/ (exists chain, Selects root (split_slash (snd (cut_all pat))) chain /\ BadEntry (fst (cut_all pat)) chain).
+  \/ (exists chain, Selects root (split_slash (snd (cut_all pat))) chain /\ BadEntry nd (fst (cut_all pat)) chain).
